@@ -295,6 +295,10 @@ func udpMonitors(ctx *Ctx, prop string, cs *udpCaseSpec, obs []udpOpObs, shutdow
 				}
 			}
 			for ri, rp := range ob.Replies {
+				if ri >= len(op.Replies) {
+					ctx.Monitor("C03/unexpected-reply", fmt.Sprintf("%d replies were reported for a datagram whose target sent %d", len(ob.Replies), len(op.Replies)), rep)
+					break
+				}
 				want := genBytes(op.Replies[ri][0], uint32(op.Replies[ri][1]))
 				if rp.Status == "OK" && len(rp.Body) < len(want) && bytes.Equal(rp.Body, want[:len(rp.Body)]) {
 					ctx.Monitor("C03/reply-truncated", fmt.Sprintf("the client received %d of the %d bytes the target sent, reported OK", len(rp.Body), len(want)), rep)
